@@ -8,7 +8,7 @@ mkdir -p $OUT
 cp $WT/_seeded/patch.diff $WT/_seeded/demo.py $WT/_seeded/meta.json $OUT/ 2>/dev/null
 cd $WT
 PYTHONPATH=$WT /venv/bin/python _seeded/demo.py > $OUT/demo_with_patch.log 2>&1; A=$?
-PYTHONPATH=/repo /venv/bin/python _seeded/demo.py > $OUT/demo_on_repo.log 2>&1; B=$?
+(cd /tmp && PYTHONPATH=/repo /venv/bin/python $WT/_seeded/demo.py > $OUT/demo_on_repo.log 2>&1); B=$?     # neutral cwd: `python -m …` children must not import the worktree
 PYTHONPATH=$WT /venv/bin/python -m pytest -q -p no:cacheprovider --timeout=900 tests 2>&1 | tail -1 > $OUT/tests.log
 echo "demo with patch exit=$A ; on /repo exit=$B ; tests: $(cat $OUT/tests.log)"
 cd /verif
